@@ -73,6 +73,13 @@ def gen_cases(tier, seed):
             rho = 0.0           # exactly vertically aligned endpoints
         a = [float(rng.uniform(-1e3, 1e3)), float(rng.uniform(-1e3, 1e3)), float(rng.uniform(zlo + 1, -1))]
         b = [a[0] + rho * np.cos(ph), a[1] + rho * np.sin(ph), float(rng.uniform(zlo + 1, -1))]
+        if kind.startswith("split") and rng.random() < 0.3:
+            # shallow endpoints a few hundred metres apart: the second solution bounces off the surface, mostly under total internal
+            # reflection, so its Fresnel factors are complex numbers of modulus one
+            rho = float(10 ** rng.uniform(1.3, 2.7))
+            a[2] = -float(rng.uniform(5, 60))
+            b = [a[0] + rho * np.cos(ph), a[1] + rho * np.sin(ph), -float(rng.uniform(5, 200))]
+            c["cls"] = kind + ":shallow"
         if rng.random() < 0.1:
             # nearly coincident endpoints (0.1 micrometre ... 5 mm apart, i.e. below 1e-5 of the coordinates themselves), any orientation
             u_ = rng.normal(size=3)
@@ -327,6 +334,10 @@ def run_split(case, v):
         fr = np.abs(np.array(q.fresnel, dtype=complex))
         fp = np.abs(np.array(p.fresnel, dtype=complex))
         v.close("split medium transmits with unit amplitude (same Fresnel magnitude as the unsplit path)", float(np.max(np.abs(fr - fp))), 1e-6 + (1e-3 if nv else 0.0), layered=fr.tolist(), unsplit=fp.tolist(), **det)
+        # ... and with the same phase: under total internal reflection the factors are complex
+        frc, fpc = np.array(q.fresnel, dtype=complex), np.array(p.fresnel, dtype=complex)
+        v.close("split medium reproduces the unsplit Fresnel factors (complex value, not only modulus)", float(np.max(np.abs(frc - fpc))), 1e-6 + (1e-2 if nv else 0.0) + 3 * cb / L,
+                layered=[str(x) for x in frc], unsplit=[str(x) for x in fpc], **det)
     loose = []
     for p in ref:
         cbp = 0.0
